@@ -221,7 +221,15 @@ def rule_d(prog, rep):
     fi, I, fr = run(prog, "iindex.__eq__")
     self_t, other = tm.param("self"), tm.param("other")
     rets = [(v, g) for v, g in fr.returns]
-    main = [v for v, g in rets if not tm.is_const(v)]
+    def _is_notimpl(v):
+        return (tm.dotted(v) or "").split(".")[-1] == "NotImplemented" or (v.op in ("global", "ext", "name") and "NotImplemented" in tm.show(v))
+    notimpl = [v for v, g in rets if _is_notimpl(v)]
+    for v in notimpl:
+        rep.violated("R-C15-d", fi.fq, "__eq__ returns NotImplemented",
+                     "__ne__ is `not self.__eq__(other)` and NotImplemented is truthy, so `idx != x` is False while `idx == x` is False too; and since iindex subclasses dict, `==` falls back to dict.__eq__ "
+                     "(an entry-less index equals {}, and comparing with a dict of arrays raises ValueError)",
+                     witness={"inputs": "idx != None -> False;  iindex.from_array(numpy.zeros(4, int)) == {} -> True"})
+    main = [v for v, g in rets if not tm.is_const(v) and not _is_notimpl(v)]
     consts = [(v, g) for v, g in rets if tm.is_const(v)]
     if len(main) != 1:
         rep.undecided("R-C15-d", fi.fq, "__eq__ result", "%d non-constant return values" % len(main))
